@@ -23,6 +23,7 @@ type vEnv struct {
 	divCalls  int
 	faultAt   int  // call index at which the divider breaks the sum rule (-1: never)
 	faultSeen bool // the faulty call happened
+	fullMaps  bool
 	honest    bool // S2: divider obeys the sum rule by construction (assumed)
 
 	// C02 monitor
@@ -92,7 +93,7 @@ func vStubDivider(priorities []uint, dividend uint, distribution map[uint]uint) 
 			vAssert(priorities[i-1] > p, "divider list is strictly descending (sorted, distinct)")
 		}
 	}
-	if e.honest {
+	if e.honest && call != e.faultAt {
 		// obeys the sum rule: adds exactly the dividend, spread arbitrarily over the listed priorities
 		if len(priorities) == 0 {
 			return
@@ -146,8 +147,10 @@ type vArbOpts struct {
 // the input that is unbuffered (-1: all buffered).
 func vArbitrary(n int) *vEnv { return vArbitraryU(n, -1) }
 
-func vArbitraryU(n int, unbuffered int) *vEnv {
-	e := &vEnv{n: n, faultAt: -1}
+func vArbitraryU(n int, unbuffered int) *vEnv { return vArbitraryF(n, unbuffered, false) }
+
+func vArbitraryF(n int, unbuffered int, fullMaps bool) *vEnv {
+	e := &vEnv{n: n, faultAt: -1, fullMaps: fullMaps}
 	vE = e
 	e.H = vNondetUint("H")
 	vAssume(e.H >= 1)
@@ -178,7 +181,10 @@ func vArbitraryU(n int, unbuffered int) *vEnv {
 	vAssume(d.feedbackLimit >= 1)
 	e.d = d
 	e.G = make([]uint, n)
-	present := vChoose("presence", 2) // 0: counters maps empty where possible, 1: every entry present
+	present := 1
+	if !e.fullMaps {
+		present = vChoose("presence", 2) // 0: counters maps empty where possible, 1: every entry present
+	}
 	for i, p := range e.ps {
 		capacity := 4
 		if i == unbuffered {
@@ -297,6 +303,17 @@ func (e *vEnv) assertRound(where string) {
 	all := append(e.sumActual(), e.sumTactic()...)
 	t := vSumAssert(where+": in flight plus allowance", all...)
 	vAssert(t <= e.H, where+": in-flight + remaining allowance <= HandlersQuantity")
+}
+
+// assumeConstructed: what v2 New guarantees about the strategic shares for a divider
+// that writes only listed priorities: every share >= 1 and the shares sum to H
+func (e *vEnv) assumeConstructed() {
+	var st []uint
+	for _, p := range e.ps {
+		vAssume(e.d.strategic[p] >= 1)
+		st = append(st, e.d.strategic[p])
+	}
+	vAssume(vSumAssume(st...) == e.H)
 }
 
 // ---- environment helpers
